@@ -1160,6 +1160,15 @@ Octagonal_Shape<T>::concatenate_assign(const Octagonal_Shape& y) {
     return;
   }
 
+  // If `y' is marked empty, its matrix is meaningless:
+  // the result is the empty octagon of the proper dimension.
+  if (y.marked_empty()) {
+    add_space_dimensions_and_embed(y.space_dim);
+    set_empty();
+    PPL_ASSERT(OK());
+    return;
+  }
+
   // This is the old number of rows in the matrix. It is equal to
   // the first index of columns to change.
   dimension_type old_num_rows = matrix.num_rows();
